@@ -15,6 +15,16 @@ CHECKS = {
          "The real FYshuffle is run under a scripted generator that the harness fully controls; all m! scripts for m<=9 (quick) / m<=11 (thorough) are enumerated and the map script->order is shown to be a bijection onto the permutations, so every order has probability prod 1/r exactly (up to the 2^-52 granularity of the generator, whose interval boundaries are probed word by word for every r<=64 and selected r up to 2^26). All pre-reset histories up to 2m draws followed by reset and all m! scripts are compared with a fresh instance, and all scripts of 2m-3m draws without reset are checked block-wise. Exact, no tolerance.",
          "rand's Uniform<f64> word->value map (self-checked); sizes beyond the bound not explored",
          "DESIGN.md §4 C17"),
+ "C16": ("model_checking",
+         "probabilistic explicit-state exploration: all generator scripts on a grid, rejection chain solved exactly",
+         "The real ExpRestricted01::sample is run under a scripted generator: every first-try value on a 2^20 (2^22) grid and every (u2,u3) pair on a 4096^2 (16384^2) grid behind a loop-forcing first word, plus all 8^5 scripts over extreme generator words. The sampler is a 3-state Markov chain (first try / loop / output) whose output distribution is solved exactly from the enumerated transition masses and compared on 64 bin edges with (1-exp(-lambda t))/(1-exp(-lambda)) for ~50 (quick) / ~280 (thorough) rates from 1e-9 to 50; every output is checked to lie in [0,1). Decides the law up to the stated discretisation tolerance (observed error 1e-7..5e-5, tolerance 2.5e-4..1e-3 quick).",
+         "rand's Uniform<f64> word->value map (self-checked); tolerance max(1,0.2/P(accept))/N+1e-5; rates outside the list not explored",
+         "DESIGN.md §4 C16"),
+ "C19": ("exploration",
+         "exhaustive input-domain enumeration (all 2^32 arguments; structured sub-domains of 2^64)",
+         "The 32-bit pair is decided completely: all 2^32 arguments, both compositions. For the 64-bit pair complete enumeration is impossible; complete structured sub-domains are swept (consecutive blocks of 2^26/2^34 values low/high/complemented/shifted, a<<s for all shifts, <=3 bits set or cleared, carry-chain patterns, forward/backward orbits): 2.8e8 values quick, 7e10 thorough.",
+         "64-bit half is not exhaustive (stated in the evidence); a solver would be needed to close it, which is outside this family",
+         "DESIGN.md §4 C19"),
 }
 PENDING_REASON = "check not built yet in this revision (see DESIGN.md §4 for the planned model-checking approach)"
 
